@@ -119,7 +119,7 @@ def run_and_check(p: dict[str, Any], wd: Path) -> dict[str, Any]:
     if res.ok and files:
         outcheck.check_outputs(snaps, files, conf["output"], V, cnt, ref, xy2ll=xy2ll if p.get("lonlat") else None)
     # --- optional: a warm start from the first completed file, observed by the same call-boundary monitor
-    if p.get("warm") and res.ok and len(files) >= 2 and files[0].layout == "sparse" and not V and len(files[0].records) and len(files[0].records[-1].pid):
+    if p.get("warm") and res.ok and len(files) >= 2 and files[0].layout == "sparse" and not V and len(files[0].records) and (len(files[0].records[-1].pid) or p.get("pvars", True)):
         snaps2: list[dict[str, Any]] = []
         run2 = dict(scn["run"])
         pv = list(scn["run"]["state"]["particle_variables"])
@@ -139,6 +139,7 @@ def run_and_check(p: dict[str, Any], wd: Path) -> dict[str, Any]:
             outcheck.snapshot_hook(hk, snaps2)
             res2, conf2, _w = run_scenario(dict(world=None, run=run2), wd, conf_name="warm.yaml", world=world)
         cnt["warm_runs"] = 1
+        cnt["warm_runs_from_an_empty_last_record"] = int(len(files[0].records[-1].pid) == 0)
         if not res2.ok:
             V.append(C.viol(f"warm start from {files[0].path.name} did not complete: {res2.exc}", tb=res2.tb[-1200:]))
         else:
